@@ -3,15 +3,15 @@
  "property": ["C07", "C14"],
  "entry": "h_nr_wait",
  "enforce": ["netbuf_read_wait"],
- "replace": ["netbuf_read_resize_buffer"],
+ "replace": [],
  "annotate": ["netbuf/netbuf_read.c"],
- "defines": ["VERIF_HALLOC", "NET_MEMMOVE_MAX=32"],
+ "defines": ["VERIF_HALLOC"],
  "models": ["models/net_events.c", "models/net_netapi.c", "models/net_mem.c"],
  "cbmc": ["--malloc-may-fail", "--malloc-fail-null"],
  "timeout": 300,
  "assumptions": [
   "network_read / network_ssl_read = their C06 contracts (models/net_netapi.c); events_immediate_register per models/net_events.c",
-  "memmove = byte-wise model models/net_mem.c (bound NET_MEMMOVE_MAX >= NB_MAXOBJ, so complete here); memcpy/malloc/free = CBMC built-ins",
+  "memmove = models/net_mem.c: sound over-approximation (arbitrary bytes) exact at the ghost offset g_mm_k = g_nb_idx; memcpy/malloc/free = CBMC built-ins",
   "object-size parameter: reader buffer <= NB_MAXOBJ (32) bytes, wait length <= 2*NB_MAXOBJ; the real initial size 4096 only enters through netbuf_read_init2"
  ]
 }
@@ -20,6 +20,8 @@
 #include "verif.h"
 #include "netbuf/netbuf_read.c"
 #include "c07r.h"
+extern size_t g_mm_k;
+extern unsigned g_mm_calls;
 
 /* wait(k) on any idle well-formed reader; every allocation / registration / request may fail. */
 void
@@ -33,6 +35,8 @@ h_nr_wait(void)
 	uint8_t b0 = 0;
 
 	__CPROVER_assume(len <= 2 * NB_MAXOBJ);
+	g_mm_k = gi;
+	g_mm_calls = 0;
 	if (gi < view0)
 		b0 = rbuf[rbufpos + gi];
 
@@ -47,7 +51,7 @@ h_nr_wait(void)
 	VCOVER(rc == 0 && view0 >= len && len > 0);
 	VCOVER(rc == -1 && view0 >= len);
 	VCOVER(rc == 0 && view0 < len && R->buf == rbuf && R->bufpos == rbufpos && rbufpos > 0);
-	VCOVER(rc == 0 && view0 < len && R->buf == rbuf && R->bufpos == 0 && rbufpos > 0 && gi < view0 && view0 > 1);
+	VCOVER(rc == 0 && view0 < len && R->buf == rbuf && R->bufpos == 0 && rbufpos > 0 && gi < view0 && view0 > 1 && g_mm_calls == 1);
 	VCOVER(rc == 0 && view0 < len && R->buf != rbuf && R->buflen == len && gi < view0 && rbufpos > 0);
 	VCOVER(rc == 0 && view0 < len && R->buf != rbuf && R->buflen == 2 * rbuflen && gi < view0);
 	VCOVER(rc == -1 && view0 < len && R->buf != rbuf);
